@@ -2516,18 +2516,27 @@ def lgdt(info, a):
     return e
 
 def bittest_get(a, b):
-    if isinstance(a, ExprId):
-        off_bit = ExprOp('&', b, ExprInt_from(a, a.get_size() - 1))
-        d = a
-        #d = ExprOp('>>', a, off_bit)
-    else:
-        off_bit = ExprOp('&', b, ExprInt_from(a, a.get_size() - 1))
-        off_byte = ExprOp("&",
-                          ExprOp('>>', b, ExprInt_from(a, 3)),
-                          ExprOp('!', ExprInt_from(a, a.get_size()/8 -1)))
-
-        d = ExprMem(a.arg+off_byte, a.size)
-        #d = ExprOp('>>', mem, off_bit)
+    size = a.get_size()
+    off_bit = ExprOp('&', b, ExprInt_from(b, size - 1))
+    if not isinstance(a, ExprMem) or isinstance(b, ExprInt):
+        # register bit base (possibly a sub-register), or immediate offset:
+        # the bit offset is taken modulo the operand size
+        return a, off_bit
+    # memory bit base with a register offset: the offset is a signed integer,
+    # the accessed word is at base + size/8 * floor(offset / size)
+    ad_size = a.arg.get_size()
+    off = b
+    if off.get_size() < ad_size:
+        int_cast = tab_uintsize[ad_size - off.get_size()]
+        fill = ExprCond(get_op_msb(b),
+                        ExprInt(int_cast(-1)),
+                        ExprInt(int_cast(0)))
+        off = ExprCompose([(b, 0, b.get_size()),
+                           (fill, b.get_size(), ad_size)])
+    off_byte = ExprOp("&",
+                      ExprOp('a>>', off, ExprInt_from(off, 3)),
+                      ExprInt_from(off, -(size//8)))
+    d = ExprMem(a.arg+off_byte, a.size, a.segm)
     return d, off_bit
 
 def bt(info, a, b):
